@@ -47,12 +47,15 @@ FailInProcess == phase \in {"start", "filling"} /\ ~lastSeen /\ phase' = "failed
 FailAtEnd == phase = "filling" /\ lastSeen /\ phase' = "failed" /\ UNCHANGED <<dest, tmp, got, lastSeen, synced, verified, mode>>
 \* async only: the pull loop's error is surfaced after the consumer finished with a short file
 PullErrorSurfaces == mode = "async" /\ phase \in {"filled", "synced"} /\ ~lastSeen /\ phase' = "failed" /\ UNCHANGED <<dest, tmp, got, lastSeen, synced, verified, mode>>
+\* a local I/O failure (write, flush, sync or rename returns an error: disk full, I/O error): the call had no effect
+\* and the pull fails, whatever it had reached
+LocalIoFail == phase \in {"start", "filling", "filled", "synced", "verifiedOk"} /\ phase' = "failed" /\ UNCHANGED <<dest, tmp, got, lastSeen, synced, verified, mode>>
 \* TempFile::drop: remove the temp file
 GuardDrop == phase = "failed" /\ tmp' = "absent" /\ phase' = "cleaned" /\ UNCHANGED <<dest, got, lastSeen, synced, verified, mode>>
 \* the process dies: nothing more happens
 Kill == phase \notin {"committed", "cleaned", "killed"} /\ phase' = "killed" /\ UNCHANGED <<dest, tmp, got, lastSeen, synced, verified, mode>>
 Next == CreateTmp \/ (\E full \in BOOLEAN : WriteChunk(full)) \/ SeeEnd \/ EndFill \/ Sync \/ (\E ok \in BOOLEAN : Verify(ok)) \/ Rename
-        \/ FailInProcess \/ FailAtEnd \/ PullErrorSurfaces \/ GuardDrop \/ Kill
+        \/ FailInProcess \/ FailAtEnd \/ PullErrorSurfaces \/ LocalIoFail \/ GuardDrop \/ Kill
 Spec == Init /\ [][Next]_vars
 StateBound == got <= Chunks
 DestNeverPartial == dest \in {PreDest, "complete"}
